@@ -461,7 +461,60 @@ class STensor:
         return _getitem(self, key)
 
     def __setitem__(self, key, value):
-        raise OutOfReach("in-place assignment into symbolic tensor")
+        """in-place assignment of a scalar, numpy semantics for the index forms the package
+        uses: a *tuple* key is a multi-dimensional index (one component per axis: int,
+        full slice, or a sequence / 1-D tensor of ints = fancy index); more components than
+        axes raise IndexError; NaN into an integer array raises ValueError."""
+        if isinstance(self, MaskedAxisTensor):
+            raise OutOfReach("in-place assignment into masked tensor")
+        if not isinstance(key, tuple):
+            key = (key,)
+        if len(key) > self.ndim:
+            raise IndexError(
+                "too many indices for array: array is %d-dimensional, but %d were indexed" % (self.ndim, len(key))
+            )
+        key = key + (slice(None),) * (self.ndim - len(key))
+        matchers = []
+        for comp in key:
+            if isinstance(comp, slice):
+                if comp != slice(None):
+                    raise OutOfReach("in-place assignment through a partial slice")
+                matchers.append(None)
+                continue
+            if isinstance(comp, STensor):
+                if comp.ndim != 1 or not isinstance(comp.rshape[0], int) or comp.kind != "i":
+                    raise OutOfReach("in-place assignment through a symbolic-length index array")
+                comp = [comp._elem(k) for k in range(comp.rshape[0])]
+            if isinstance(comp, (tuple, list)):
+                matchers.append([to_i(c) for c in comp])
+            else:
+                matchers.append([to_i(comp)])
+        v = _unnp(raw(value)) if not isinstance(value, SFloat) else value
+        if isinstance(v, STensor) or isinstance(value, (tuple, list)):
+            raise OutOfReach("in-place assignment of a non-scalar")
+        vk = kind_of(v)
+        if self.kind == "i" and vk == "f":
+            fv = to_f(v)
+            if core._bconst(fv.u) is True:
+                raise ValueError("cannot convert float NaN to integer")
+            raise OutOfReach("float assigned into integer tensor")
+        if self.kind == "f":
+            v = to_f(v)
+        old = self._elem
+        n_dims = [self.rshape[d] for d in range(self.ndim)]
+
+        def elem(*idx):
+            conds = []
+            for d, m in enumerate(matchers):
+                if m is None:
+                    continue
+                # negative positions wrap like numpy
+                alts = [b_or(zi(idx[d]) == zi(c), zi(idx[d]) == core._num_op("+", zi(c), n_dims[d])) for c in m]
+                conds.append(b_or(*alts) if alts else False)
+            hit = b_and(*conds) if conds else True
+            return sc_ite(hit, v, old(*idx))
+
+        self._elem = elem
 
     # -- arithmetic
     def _ew(self, o, fn, kind=None):
@@ -1279,6 +1332,9 @@ def broadcast_to(a, shape):
 
 
 def repeat(a, repeats, axis=None):
+    # a one-element repeats sequence (e.g. `arr.shape` of a 1-D array) broadcasts like a scalar
+    if isinstance(repeats, (tuple, list)) and len(repeats) == 1:
+        repeats = repeats[0]
     repeats = raw(repeats)
     t = _as_tensor_or_scalar(a)
     if t is None:
@@ -1584,6 +1640,14 @@ def _mask_index(t, key, pos):
             cnt = z3.Int(c.fresh("masklen"))
             c.assume(cnt >= 0, cnt <= zi(n))
             mask._count_sym = cnt
+            # the count is zero exactly when no position satisfies the mask: a witness when
+            # positive, and every true position forces count >= 1
+            wit = z3.Int(c.fresh("maskwit"))
+            c.assume(z3.Implies(cnt > 0, z3.And(wit >= 0, wit < zi(n), zb(raw(mask._elem(wit))))))
+            kq = z3.Int(c.fresh("maskk"))
+            body = zb(raw(mask._elem(kq)))
+            if not z3.is_false(body):
+                c.assume(z3.ForAll([kq], z3.Implies(z3.And(kq >= 0, kq < zi(n), body), cnt >= 1)))
     shape = list(t.rshape)
     shape[axis] = cnt
     return MaskedAxisTensor(
@@ -1939,6 +2003,8 @@ def concatenate(seq, axis=0):
         i = idx[axis]
         r = None
         for j in range(len(ps) - 1, -1, -1):
+            if isinstance(ps[j].rshape[axis], int) and ps[j].rshape[axis] == 0:
+                continue  # an empty piece holds no position
             loc = list(idx)
             loc[axis] = core._num_op("-", i, offs[j])
             if isinstance(i, int) and isinstance(offs[j], int) and isinstance(offs[j + 1], int):
